@@ -233,10 +233,10 @@ func BlockCRC(raw []byte, primary bool) (declared uint64, ok bool, err error) {
 
 // CborHeader locates one length/count-carrying item header inside an encoding.
 type CborHeader struct {
-	Pos    int   // offset of the initial byte
-	Len    int   // length of the header (1, 2, 3, 5 or 9 bytes)
-	Major  byte  // 2 byte string, 3 text string, 4 array, 5 map
-	Value  uint64
+	Pos   int  // offset of the initial byte
+	Len   int  // length of the header (1, 2, 3, 5 or 9 bytes)
+	Major byte // 2 byte string, 3 text string, 4 array, 5 map
+	Value uint64
 }
 
 // CborHeaders lists, in order, every definite-length string/array/map header of the item(s) in d.
